@@ -93,6 +93,7 @@ pub fn form_tokens(f: &Form, rng: &mut Rng, out: &mut Vec<String>) {
         Form::Any(p) => out.extend(["any".to_string(), "of".into(), grp(p)]),
         Form::NoneOf(p) => out.extend(["none".to_string(), "of".into(), grp(p)]),
         Form::N(n, p) => out.extend([n.to_string(), "of".into(), grp(p)]),
+        Form::NBig(d, p) => out.extend([d.clone(), "of".into(), grp(p)]),
     }
 }
 
